@@ -81,6 +81,82 @@ Section Proofs.
     rewrite Ls. rewrite skipn_all2 by lia. simpl. rewrite app_nil_r. reflexivity.
   Qed.
 
+  Lemma math_match_not_dollar : forall pb c r, ceq c c_dollar = false -> math_match pb (c :: r) = None.
+  Proof. intros pb c r H. unfold math_match. rewrite H. reflexivity. Qed.
+
+  (* ---- the intended behaviour: ONE span on a line is kept as it is and everything around it is converted *)
+  Definition no_dollar (u : str) : Prop := forall c, In c u -> ceq c c_dollar = false.
+
+  (* without a dollar the math rule never fires *)
+  Lemma enc_go_no_dollar : forall s pb, no_dollar s -> enc_go true false pb 0 s = flat_map enc_char s.
+  Proof.
+    induction s as [|c r IH]; intros pb N; [reflexivity|].
+    cbn [LatexRules.enc_go flat_map]. rewrite (math_match_not_dollar pb c r (N c (or_introl eq_refl))).
+    rewrite IH by (intros x I; apply N; right; exact I). reflexivity.
+  Qed.
+
+  Lemma math_k_no_dollar : forall t i best, no_dollar (tl t) -> math_k t i best = best.
+  Proof.
+    induction t as [|a t IH]; intros i best N; [reflexivity|].
+    destruct t as [|b t']; [reflexivity|]. rewrite math_k_step.
+    assert (Hb : ceq b c_dollar = false) by (apply N; left; reflexivity).
+    rewrite Hb, andb_false_r. destruct (ceq a c_nl); [reflexivity|].
+    apply IH. intros x I. apply N. right. exact I.
+  Qed.
+
+  Lemma math_k_span : forall u x post i best, no_nl u -> ceq x c_bs = false -> no_dollar post ->
+    math_k (u ++ [x; c_dollar] ++ post) i best = Some (i + length u).
+  Proof.
+    induction u as [|a u IH]; intros x post i best N X P.
+    - cbn [app length]. rewrite Nat.add_0_r. rewrite math_k_step, X. cbn [negb andb].
+      replace (ceq c_dollar c_dollar) with true by reflexivity.
+      destruct (ceq x c_nl); [reflexivity|]. apply math_k_no_dollar. exact P.
+    - assert (Na : ceq a c_nl = false) by (apply N; left; reflexivity).
+      assert (Nu : no_nl u) by (intros c I; apply N; right; exact I).
+      change ((a :: u) ++ [x; c_dollar] ++ post) with (a :: (u ++ [x; c_dollar] ++ post)).
+      destruct (u ++ [x; c_dollar] ++ post) as [|b t'] eqn:E; [destruct u; discriminate|].
+      rewrite math_k_step, Na. rewrite <- E. rewrite IH by assumption. simpl. f_equal. lia.
+  Qed.
+
+  (* pre $ body x $ post, no other dollar, no line break inside the span, the opening dollar not after a backslash:
+     the span is copied, pre and post are converted character by character (URL rule off) *)
+  Theorem encode_single_span : forall pre u x post,
+    no_dollar pre -> ceq (last pre c_sp) c_bs = false ->
+    no_nl u -> ceq x c_bs = false -> no_dollar post ->
+    encode true false (pre ++ c_dollar :: u ++ [x; c_dollar] ++ post)
+    = flat_map enc_char pre ++ (c_dollar :: u ++ [x; c_dollar]) ++ flat_map enc_char post.
+  Proof.
+    intros pre u x post Npre Lpre Nu X Npost. unfold encode, LatexRules.encode.
+    assert (G : forall pb, (pre = [] -> pb = false) ->
+                enc_go true false pb 0 (pre ++ c_dollar :: u ++ [x; c_dollar] ++ post)
+                = flat_map enc_char pre ++ (c_dollar :: u ++ [x; c_dollar]) ++ flat_map enc_char post);
+      [|apply G; reflexivity].
+    revert Npre Lpre. induction pre as [|c r IH]; intros Npre Lpre pb Hpb.
+    - rewrite (Hpb eq_refl). rewrite app_nil_l. cbn [flat_map]. rewrite app_nil_l.
+      set (t := u ++ [x; c_dollar] ++ post).
+      assert (M : math_match false (c_dollar :: t) = Some (c_dollar :: u ++ [x; c_dollar])).
+      { unfold math_match. replace (ceq c_dollar c_dollar) with true by reflexivity. cbn [negb andb].
+        unfold t. rewrite (math_k_span u x post 0 None Nu X Npost). cbn [plus].
+        f_equal. f_equal. rewrite app_assoc. rewrite firstn_app.
+        replace (length u + 2 - length (u ++ [x; c_dollar])) with 0 by (rewrite app_length; simpl; lia).
+        rewrite firstn_O, app_nil_r.
+        replace (length u + 2) with (length (u ++ [x; c_dollar])) by (rewrite app_length; simpl; lia).
+        apply firstn_all. }
+      cbn [LatexRules.enc_go]. rewrite M. rewrite enc_skip.
+      replace (length (c_dollar :: u ++ [x; c_dollar]) - 1) with (length (u ++ [x; c_dollar])) by (simpl; lia).
+      unfold t. rewrite app_assoc. rewrite skipn_app.
+      replace (length (u ++ [x; c_dollar]) - length (u ++ [x; c_dollar])) with 0 by lia.
+      rewrite skipn_all, skipn_O. cbn [app]. rewrite enc_go_no_dollar by exact Npost.
+      rewrite <- app_assoc. reflexivity.
+    - cbn [app flat_map LatexRules.enc_go].
+      rewrite (math_match_not_dollar pb c _ (Npre c (or_introl eq_refl))).
+      rewrite <- app_assoc. f_equal.
+      apply IH.
+      + intros y I. apply Npre. right. exact I.
+      + destruct r as [|c2 r2]; [reflexivity | exact Lpre].
+      + intros ->. simpl in Lpre. exact Lpre.
+  Qed.
+
   (* ---- a URL match starts with `h` or `w`, hence never with a dollar: the math rule does not fire there *)
   Lemma url_match_head : forall s m, url_match s = Some m -> exists c r, s = c :: r /\ (ceq c c_h = true \/ ceq c c_w = true).
   Proof.
@@ -92,8 +168,6 @@ Section Proofs.
       right. destruct (ceq c c_w); [reflexivity | simpl in H; discriminate].
   Qed.
 
-  Lemma math_match_not_dollar : forall pb c r, ceq c c_dollar = false -> math_match pb (c :: r) = None.
-  Proof. intros pb c r H. unfold math_match. rewrite H. reflexivity. Qed.
 
   Lemma h_not_dollar : forall c, ceq c c_h = true -> ceq c c_dollar = false.
   Proof. intros c H. apply N.eqb_eq in H. subst. reflexivity. Qed.
